@@ -183,6 +183,23 @@ def run(ctx: Ctx):
         if val is not c.name.endswith("Request"):
             ctx.fail(cons, c.loc(), f"{c.name} stores is_request = {val}: "
                      f"{'answers must have the R bit cleared' if c.name.endswith('Answer') else 'requests must have it set'}")
+    # a request decoded as the command's base class (plain_msg=True: class name without the
+    # 'Request' suffix) is answered with the <Name>Answer subclass too
+    cons = "to_answer:class-lookup#base-class"
+    ctx.inst(cons)
+    ifs = [n for n in ast.walk(ta.node) if isinstance(n, ast.If)
+           and ".endswith('Request')" in ast.unparse(n.test).replace('"', "'")]
+    okb = False
+    for n in ifs:
+        els = "\n".join(ast.unparse(x) for x in n.orelse)
+        if "__subclasses__()" in els and "Answer" in els and "__name__" in els:
+            okb = True
+    if not okb:
+        ctx.fail(cons, ta.loc(ifs[0]) if ifs else ta.loc(), "to_answer only searches for an answer class "
+                 "when the request's class name ends in 'Request': a request decoded with "
+                 "plain_msg=True (class CreditControl, Accounting, ...) is answered with another "
+                 "instance of the base class, which has no attribute definitions - the answer's "
+                 "Origin-Host, Result-Code etc. are never encoded")
     # class selection in to_answer
     cons = "to_answer:class-lookup"
     ctx.inst(cons)
